@@ -157,6 +157,9 @@ def run(idx, rep, tier):
     else:
         rep.undecided("trimming", "lanczos:trim", "trimming assignment not found")
     buffer_dtype_obligations(idx, rep, init, "buffer-dtype")
+    # ---- HOMOG in the scale of the operator: floors inside the factorisation loop must scale with what they guard
+    from sa.homog import krylov_floor_obligations
+    krylov_floor_obligations(idx, rep, fact, init, "scale-floor")
     rep.floor("buffer-dtype", 2)
     rep.floor("loop-cap", 2)
     rep.floor("symmetric-T", 2)
